@@ -433,7 +433,7 @@ def model(ctx, box):
 def generate(ctx):
     thorough = ctx.tier == 'thorough'
     out = []
-    for off, (gen, n, nm) in enumerate(((gen_nl, 2500 if thorough else 130, 'nl'), (gen_helper, 3000 if thorough else 260, 'helper'))):
+    for off, (gen, n, nm) in enumerate(((gen_nl, 6000 if thorough else 130, 'nl'), (gen_helper, 8000 if thorough else 260, 'helper'))):
         rng = np.random.default_rng(ctx.seed + 2000 + off)
         k = tries = 0
         while k < n and tries < 6 * n:
